@@ -122,6 +122,11 @@ def inline_sequential(expr: ast.AST, stmt: ast.stmt, cross=(ast.If, ast.With, as
             elif isinstance(s, ast.AnnAssign) and isinstance(s.target, ast.Name) and s.value is not None:
                 tgt, val = s.target.id, s.value
             if tgt is not None:
+                if tgt in reads and ((isinstance(val, (ast.List, ast.Set, ast.Tuple)) and not val.elts) or (isinstance(val, ast.Dict) and not val.keys)
+                                     or (isinstance(val, ast.Call) and isinstance(val.func, ast.Name) and val.func.id in ('list', 'dict', 'set')
+                                         and not val.args and not val.keywords)):
+                    frozen.add(tgt)          # an empty container is a thing to be filled in place, not the value read later
+                    continue
                 if tgt in reads:
                     # the value may read names that are already frozen further down: those occurrences denote the earlier binding, which
                     # cannot be told apart syntactically from the frozen (later) one - so such a substitution is not made
